@@ -7,7 +7,8 @@ export CARGO_TARGET_DIR=$wt/target CARGO_NET_OFFLINE=true
 git checkout -q -- . 2>/dev/null
 git apply --check mutant_$n.diff || { echo "RESULT diff-does-not-apply"; exit 1; }
 rundemo() {
-  if [ -d demo_$n ]; then (cd demo_$n && CARGO_TARGET_DIR=$wt/target-demo cargo run --offline -q >/dev/null 2>&1); echo $?
+  if [ -f demo_$n.sh ]; then bash demo_$n.sh >/dev/null 2>&1; echo $?
+  elif [ -d demo_$n ]; then (cd demo_$n && CARGO_TARGET_DIR=$wt/target-demo cargo run --offline -q >/dev/null 2>&1); echo $?
   elif [ -f tests/demo_$n.rs ]; then cargo test --offline -q --test demo_$n >/dev/null 2>&1; echo $?
   else echo nodemo; fi
 }
